@@ -8,6 +8,8 @@ import (
 	"ti/lexer"
 )
 
+const maxEOSReads = 1000
+
 func (p *Parser) getToken() {
 	if p.ungetFlg {
 		p.ungetFlg = false
@@ -152,6 +154,13 @@ func (p *Parser) Read() (*base.T, error) {
 		}
 
 	case base.EOS:
+		// an evaluator loop that does not expect end of input keeps asking for
+		// tokens; give it an error instead of end-of-stream forever
+		p.eosReadCount++
+		if p.eosReadCount > maxEOSReads {
+			return nil, errors.New("unexpected end of file")
+		}
+
 		return nil, nil
 
 	default:
